@@ -414,6 +414,13 @@ def check_population_helpers(prog: Program, size_only: bool = False) -> list:
                            and m.lineno < limit and sorted_of(m.value, "self._population") for m in own_nodes(g))
             if isinstance(src, ast.Name):
                 rd = reaching_def(g.node, src, src.id)
+                if rd is None:
+                    # a = b = E: one chained assignment binding the name, and no other store of it
+                    chained = [m for m in own_nodes(g) if isinstance(m, ast.Assign) and len(m.targets) > 1
+                               and any(isinstance(t_, ast.Name) and t_.id == src.id for t_ in m.targets)]
+                    stores = [x for x in own_nodes(g) if isinstance(x, ast.Name) and x.id == src.id and isinstance(x.ctx, ast.Store)]
+                    if len(chained) == 1 and len(stores) == 1 and chained[0].lineno < n.lineno:
+                        rd = (chained[0], chained[0].value, "assign")
                 if rd is not None and rd[2] == "assign":
                     return sorted_of(rd[1], what) or (isinstance(rd[1], ast.Name) and reaches_sorted(rd[1], what)) \
                         or (what == "self._population" and dotted(rd[1]) == "self._population"
